@@ -107,7 +107,9 @@ def level_recipe(triple, rng, nmods=None, module_override=None, ovh_override=Non
         # a destination vector whose backbone (the part the kit's hand-written structure does not cover) was never domesticated:
         # one more site of the vector's own enzyme there, either strand
         vloose = False
-        if rng.random() < 0.2 and not module_override:
+        own_structure = next((k_ for k_ in vcls.__mro__ if "structure" in k_.__dict__), None)
+        anchored = own_structure is not None and own_structure.__module__.startswith("moclo.kits")     # hand-written, anchored on the next-level sites
+        if anchored and rng.random() < 0.25 and not module_override:
             vec = vec + gen.rnd(rng.randint(2, 5), rng, "AT") + rng.choice([tsite, dna.rc(tsite)]) + gen.rnd(rng.randint(2, 5), rng, "AT")
             vloose = True
         # curated inserts: a reference list and a handful of short cited features (some of them fall inside the insert, so the
